@@ -102,7 +102,7 @@ def parseIP4Text (s : Bytes) : Option (List Nat) := ip4Fields s false true [] 0 
 
 /-- what `net.ParseIP(s)` followed by `To4()` yields for the PTR owner name -/
 inductive PtrIP where
-  | invalid               -- ParseIP returned nil → "invalid PTR IP" error
+  | invalid               -- ParseIP returned nil → record ignored (fix commit; was the error "invalid PTR IP")
   | v6                    -- parsed, To4() == nil → record ignored
   | v4 (a b c d : Nat)
   deriving DecidableEq, Repr
@@ -173,7 +173,7 @@ def decodeRR (ip6 : Bytes → PtrIP) (e : DNSEntry) (p : Bytes) (offset : Int) :
         else if t = 15 then .ok (e, offset', false)
         else if t = 12 then
           match parsePtrIP ip6 (trimSuffix name inAddrArpa) with
-          | .invalid => .err .other
+          | .invalid => .ok (e, offset', false)          -- fix commit: not an IPv4 reverse name → skipped
           | .v6 => .ok (e, offset', false)
           | .v4 a b c d =>
             match decodeName p (endq + 10 : Nat) 1 with
